@@ -11,6 +11,7 @@ from .values import (CTX, Path, PyRaise, OutOfSubset, Infeasible, SNum, SBool, S
                      BoundMethod, PropertyVal, StaticVal, Builtin, PartialVal, ModuleVal, Opaque, IDict, ISet, force,
                      is_concrete_num, lift)
 from . import ops
+from .values import ClassMethodVal
 from .ops import truth, eq_value, raise_py
 from .abstract import AList
 
@@ -18,6 +19,18 @@ from .abstract import AList
 class _Return(Exception):
     def __init__(self, v):
         self.v = v
+
+
+def _has_yield(fnode):
+    stack = list(fnode.body)
+    while stack:
+        n = stack.pop()
+        if isinstance(n, (ast.Yield, ast.YieldFrom)):
+            return True
+        if isinstance(n, (ast.FunctionDef, ast.AsyncFunctionDef, ast.Lambda, ast.ClassDef)):
+            continue
+        stack.extend(ast.iter_child_nodes(n))
+    return False
 
 
 class _Break(Exception):
@@ -258,6 +271,51 @@ class Interp:
         else:
             self.exec_block(s.orelse, env, mod)
 
+    def st_Match(self, s, env, mod):
+        subject = self.ev(s.subject, env, mod)
+        for case in s.cases:
+            if self._match(case.pattern, subject, env, mod) and (case.guard is None or truth(self.ev(case.guard, env, mod))):
+                self.exec_block(case.body, env, mod)
+                return
+
+    def _match(self, pat, v, env, mod):
+        if isinstance(pat, ast.MatchValue):
+            return truth(eq_value(v, self.ev(pat.value, env, mod)))
+        if isinstance(pat, ast.MatchSingleton):
+            return force(v) is pat.value
+        if isinstance(pat, ast.MatchOr):
+            return any(self._match(p, v, env, mod) for p in pat.patterns)
+        if isinstance(pat, ast.MatchAs):
+            if pat.pattern is not None and not self._match(pat.pattern, v, env, mod):
+                return False
+            if pat.name is not None:
+                env.set(pat.name, v)
+            return True
+        if isinstance(pat, ast.MatchClass):
+            if pat.patterns or pat.kwd_patterns or not isinstance(pat.cls, ast.Name):
+                raise OutOfSubset('match class pattern with sub-patterns')
+            from .builtins_ import TYPES
+            t = TYPES.get(pat.cls.id)
+            if t is None or not hasattr(t, 'check'):
+                raise OutOfSubset('match class pattern ' + pat.cls.id)
+            fv = force(v)
+            if isinstance(fv, (SNum, Opaque)) and pat.cls.id in ('int', 'float', 'complex', 'bool', 'str'):
+                raise OutOfSubset('match class pattern on a symbolic number')
+            return bool(t.check(fv))
+        if isinstance(pat, ast.MatchSequence):
+            fv = force(v)
+            if isinstance(fv, AList) and not any(isinstance(p, ast.MatchStar) for p in pat.patterns):
+                n = len(pat.patterns)
+                if not truth(eq_value(fv.len_value(), n)):
+                    return False
+                return all(self._match(p, fv.getitem(i), env, mod) for i, p in enumerate(pat.patterns))
+            if not isinstance(fv, (list, tuple)) or any(isinstance(p, ast.MatchStar) for p in pat.patterns) or len(fv) != len(pat.patterns):
+                if isinstance(fv, (list, tuple)) and not any(isinstance(p, ast.MatchStar) for p in pat.patterns):
+                    return False
+                raise OutOfSubset('match sequence pattern')
+            return all(self._match(p, x, env, mod) for p, x in zip(pat.patterns, fv))
+        raise OutOfSubset('match pattern ' + type(pat).__name__)
+
     def st_While(self, s, env, mod):
         n = 0
         while truth(self.ev(s.test, env, mod)):
@@ -316,6 +374,7 @@ class Interp:
         self.exec_block(s.orelse, env, mod)
 
     def st_With(self, s, env, mod):
+        suppressed = []
         for item in s.items:
             cm = self.ev(item.context_expr, env, mod)
             if isinstance(cm, Opaque) and cm.why == 'errstate':
@@ -325,7 +384,17 @@ class Interp:
                 if item.optional_vars is not None:
                     self.assign(item.optional_vars, force(cm), env, mod)
                 continue
+            if getattr(force(cm), 'suppresses', None) is not None:
+                suppressed += list(force(cm).suppresses)
+                continue
             raise OutOfSubset('with-statement on ' + repr(cm))
+        if suppressed:
+            try:
+                self.exec_block(s.body, env, mod)
+            except PyRaise as e:
+                if not any(isinstance(c, ClassVal) and e.exc.cls.issubclass(c) for c in suppressed):
+                    raise
+            return
         self.exec_block(s.body, env, mod)
 
     def st_Raise(self, s, env, mod):
@@ -412,7 +481,7 @@ class Interp:
         if any(isinstance(b, ClassVal) and b.name == 'Enum' and b.module is None for b in cls.mro[1:]):
             # enum model: every plain class attribute becomes a member object (identity comparison, .name, .value)
             for k, v in list(cenv.vars.items()):
-                if not k.startswith('__') and not isinstance(v, (FunctionVal, PropertyVal, StaticVal)):
+                if not k.startswith('__') and not isinstance(v, (FunctionVal, PropertyVal, StaticVal, ClassMethodVal)):
                     cenv.vars[k] = Inst(cls, {'name': k, 'value': v, '_name_': k, '_value_': v})
         out = cls
         for d in reversed(s.decorator_list):
@@ -548,6 +617,29 @@ class Interp:
     def ex_Lambda(self, e, env, mod):
         return self.make_function(e, env, mod, name='<lambda>')
 
+    def ex_NamedExpr(self, e, env, mod):
+        v = self.ev(e.value, env, mod)
+        self.assign(e.target, v, env, mod)
+        return v
+
+    def ex_Yield(self, e, env, mod):
+        sink = self._yield_sink(env)
+        sink.append(self.ev(e.value, env, mod) if e.value is not None else None)
+        return None
+
+    def ex_YieldFrom(self, e, env, mod):
+        sink = self._yield_sink(env)
+        sink.extend(self.iterate(self.ev(e.value, env, mod)))
+        return None
+
+    def _yield_sink(self, env):
+        e = env
+        while e is not None:
+            if '__yield_sink__' in e.vars:
+                return e.vars['__yield_sink__']
+            e = e.parent
+        raise OutOfSubset('yield outside a generator function')
+
     def ex_IfExp(self, e, env, mod):
         if truth(self.ev(e.test, env, mod)):
             return self.ev(e.body, env, mod)
@@ -655,6 +747,17 @@ class Interp:
             return ops.s_or(a, b) if op == '|' else ops.s_and(a, b)
         if op == '|' and isinstance(a, ISet) and isinstance(b, ISet):
             return ISet(a.elems + b.elems)
+        if op == '|' and isinstance(a, IDict) and isinstance(b, IDict):
+            if inplace:
+                for k, v in b.items():
+                    a.set(k, v)
+                return a
+            out = a.copy()
+            for k, v in b.items():
+                out.set(k, v)
+            return out
+        if op == '&' and isinstance(a, ISet) and isinstance(b, ISet):
+            return ISet([x for x in a.elems if b.has(x)])
         if op == '|':
             from . import seq
             if isinstance(a, seq.ASet) or isinstance(b, seq.ASet):
@@ -950,6 +1053,18 @@ class Interp:
                 return self.ev(fn.node.body, env, fn.module)
             # qualprefix for nested definitions
             env.vars['__qualprefix__'] = fn.qualname + '.<locals>.'
+            is_gen = getattr(fn, '_is_generator', None)
+            if is_gen is None:
+                is_gen = fn._is_generator = _has_yield(fn.node)
+            if is_gen:
+                # generator function: its body is run to completion at the call and the yielded values are collected (sound for
+                # bodies without side effects whose values are all consumed; recorded as an assumption of the interpreter)
+                env.vars['__yield_sink__'] = []
+                try:
+                    self.exec_block(fn.node.body, env, fn.module)
+                except _Return:
+                    pass
+                return env.vars['__yield_sink__']        # (a loop over an abstract sequence rebinds the sink to an abstract list)
             try:
                 self.exec_block(fn.node.body, env, fn.module)
             except _Return as r:
@@ -1066,6 +1181,8 @@ class Interp:
                 return self.call(v.fget, [obj], {})
             if isinstance(v, StaticVal):
                 return v.fn
+            if isinstance(v, ClassMethodVal):
+                return BoundMethod(v.fn, obj.cls)
             if isinstance(v, FieldSpec):
                 raise_py('AttributeError', name)
             if isinstance(v, Builtin) and getattr(v, 'is_method', False):
@@ -1089,6 +1206,8 @@ class Interp:
                 raise_py('AttributeError', f'class {obj.name} has no attribute {name}')
             if isinstance(v, StaticVal):
                 return v.fn
+            if isinstance(v, ClassMethodVal):
+                return BoundMethod(v.fn, obj)
             if isinstance(v, FieldSpec):
                 if v.has_default:
                     return v.default
@@ -1149,6 +1268,11 @@ class Interp:
         if isinstance(obj, IDict):
             i = obj._find(idx)
             if i < 0:
+                factory = getattr(obj, 'factory', None)
+                if factory is not None:            # collections.defaultdict
+                    v = self.call(factory, [], {})
+                    obj.set(idx, v)
+                    return v
                 raise_py('KeyError', idx)
             return obj.items_[i][1]
         if isinstance(obj, Inst):
